@@ -45,6 +45,11 @@ type c13x struct {
 	handles  map[string]bool   // variables holding the opened file
 	closures map[string][]fsOp // clean-up closures
 	ctor     map[string]ast.Expr
+	maps     map[string]bool     // variables holding a mapping (mmap.Map)
+	closers  map[string][]string // closures with an error result: their steps (the io.Closer of Load)
+	closer   []string            // the closer the function returns (second result `closerFunc(…)`), as steps
+	tail     string              // `return <recv>.<field>(handle)`: the field through which the function tail-calls
+	checked  string              // the error variable whose nil-check was the previous statement
 }
 
 func (x *c13x) refuse(n ast.Node, why string) {
@@ -140,9 +145,20 @@ func isIdent(e ast.Expr, names map[string]bool) bool {
 	return ok && names[id.Name]
 }
 
+// isHandle: a handle variable, or a receiver field that holds the handle (`d.pid`).
+func (x *c13x) isHandle(e ast.Expr) bool {
+	if isIdent(e, x.handles) {
+		return true
+	}
+	if s, ok := e.(*ast.SelectorExpr); ok {
+		return x.handles[strings.Join(strings.Fields(x.pkg.Src(s)), "")]
+	}
+	return false
+}
+
 // handleFile: `h.File()` or `h` for a handle variable h.
 func (x *c13x) handleFile(e ast.Expr) bool {
-	if isIdent(e, x.handles) {
+	if x.isHandle(e) {
 		return true
 	}
 	c, ok := e.(*ast.CallExpr)
@@ -150,7 +166,7 @@ func (x *c13x) handleFile(e ast.Expr) bool {
 		return false
 	}
 	s, ok := c.Fun.(*ast.SelectorExpr)
-	return ok && s.Sel.Name == "File" && isIdent(s.X, x.handles)
+	return ok && s.Sel.Name == "File" && x.isHandle(s.X)
 }
 
 // call classifies one call expression as a file-system step (ok=false: not one).
@@ -204,8 +220,36 @@ func (x *c13x) call(e ast.Expr) (fsOp, bool) {
 			return fsOp{fmt.Sprintf(".truncate %d", n), "truncate"}, true
 		}
 	case "Close":
-		if isIdent(s.X, x.handles) && len(c.Args) == 0 {
+		if x.isHandle(s.X) && len(c.Args) == 0 {
 			return fsOp{".close", "close"}, true
+		}
+	case "Write":
+		// h.File().Write(bytes): the bytes are the environment's content, in one call
+		if x.handleFile(s.X) && len(c.Args) == 1 {
+			return fsOp{".write", "write"}, true
+		}
+	case "RemoveAll":
+		if id, ok := s.X.(*ast.Ident); ok && id.Name == "os" && len(c.Args) == 1 {
+			if !isIdent(c.Args[0], x.paths) {
+				x.refuse(e, "removal of something that is not the item path")
+			}
+			return fsOp{".removeAll", "removeAll"}, true
+		}
+	case "Map":
+		if id, ok := s.X.(*ast.Ident); ok && id.Name == "mmap" {
+			if len(c.Args) != 3 || !x.handleFile(c.Args[0]) || strings.Join(strings.Fields(x.pkg.Src(c.Args[1])), "") != "mmap.RDONLY" ||
+				strings.Join(strings.Fields(x.pkg.Src(c.Args[2])), "") != "0" {
+				x.refuse(e, "mmap.Map that is not (handle file, mmap.RDONLY, 0)")
+			}
+			return fsOp{".mmap", "mmap"}, true
+		}
+	case "Unmap":
+		if isIdent(s.X, x.maps) && len(c.Args) == 0 {
+			return fsOp{".unmap", "unmap"}, true
+		}
+	case "NewDataFile":
+		if id, ok := s.X.(*ast.Ident); ok && id.Name == "segment" && len(c.Args) == 1 && x.handleFile(c.Args[0]) {
+			return fsOp{".dataFile", "dataFile"}, true
 		}
 	case "Remove":
 		if id, ok := s.X.(*ast.Ident); ok && id.Name == "os" && len(c.Args) == 1 {
@@ -291,11 +335,16 @@ func (x *c13x) errBranch(b *ast.BlockStmt, errVar string) []fsOp {
 	if !ok {
 		x.refuse(b, "error branch does not end in a return")
 	}
-	if len(ret.Results) != 1 || isNil(ret.Results[0]) {
+	if len(ret.Results) < 1 || isNil(ret.Results[len(ret.Results)-1]) {
 		x.refuse(ret, "error branch does not return the error")
 	}
-	if !strings.Contains(x.pkg.Src(ret.Results[0]), errVar) {
+	if !strings.Contains(x.pkg.Src(ret.Results[len(ret.Results)-1]), errVar) {
 		x.refuse(ret, "error branch returns something that does not carry the error")
+	}
+	for _, r := range ret.Results[:len(ret.Results)-1] {
+		if !isNil(r) {
+			x.refuse(ret, "error branch returns a value beside the error")
+		}
 	}
 	return x.quietBlock(b.List[:len(b.List)-1], b)
 }
@@ -322,6 +371,13 @@ func (x *c13x) opAssign(st ast.Stmt) (fsOp, string, bool) {
 	last, ok := a.Lhs[len(a.Lhs)-1].(*ast.Ident)
 	if !ok || last.Name == "_" {
 		return fsOp{}, "", false // result ignored: handled by quietCall
+	}
+	if op.kind == "mmap" {
+		if id, ok := a.Lhs[0].(*ast.Ident); ok && len(a.Lhs) == 2 {
+			x.maps[id.Name] = true
+		} else {
+			x.refuse(st, "mmap.Map must bind (mapping, err)")
+		}
 	}
 	if op.kind == "open" {
 		if len(a.Lhs) != 2 {
@@ -359,8 +415,13 @@ func (x *c13x) program(fd *ast.FuncDecl) []string {
 			// closure := func() { … }
 			if fl, ok := a.Rhs[0].(*ast.FuncLit); ok {
 				id, ok := a.Lhs[0].(*ast.Ident)
-				if !ok || len(fl.Type.Params.List) != 0 || (fl.Type.Results != nil && len(fl.Type.Results.List) != 0) {
+				if !ok || len(fl.Type.Params.List) != 0 {
 					x.refuse(st, "closure shape")
+				}
+				if fl.Type.Results != nil && len(fl.Type.Results.List) != 0 {
+					// func() error { e1 := call; e2 := call; if e1 == nil { e1 = e2 }; return e1 }
+					x.closers[id.Name] = x.firstErrorClosure(fl)
+					continue
 				}
 				x.closures[id.Name] = x.quietBlock(fl.Body.List, fl)
 				continue
@@ -382,6 +443,7 @@ func (x *c13x) program(fd *ast.FuncDecl) []string {
 		}
 		// err = call ; if err != nil { … }      |   err = call ; return err
 		if op, ev, ok := x.opAssign(st); ok {
+			x.checked = ""
 			if i+1 >= len(list) {
 				x.refuse(st, "result of the call is never examined")
 			}
@@ -392,6 +454,7 @@ func (x *c13x) program(fd *ast.FuncDecl) []string {
 					x.refuse(nx, "call is not followed by `if err != nil { … return err }`")
 				}
 				emitAct(op, x.errBranch(nx.Body, ev))
+				x.checked = ev
 				i++
 				continue
 			case *ast.ReturnStmt:
@@ -436,13 +499,52 @@ func (x *c13x) program(fd *ast.FuncDecl) []string {
 			if !last {
 				x.refuse(st, "return before the end of the body")
 			}
+			if len(r.Results) < 1 {
+				x.refuse(st, "return shape")
+			}
+			res := r.Results[len(r.Results)-1]
+			// a closer among the other results: closerFunc(<closure>) | closerFunc(<handle>.Close)
+			for _, o := range r.Results[:len(r.Results)-1] {
+				c, ok := o.(*ast.CallExpr)
+				if !ok {
+					continue
+				}
+				if id, ok := c.Fun.(*ast.Ident); ok && id.Name == "closerFunc" && len(c.Args) == 1 {
+					switch a := c.Args[0].(type) {
+					case *ast.Ident:
+						st, ok := x.closers[a.Name]
+						if !ok {
+							x.refuse(o, "closer that is not a closure of this function")
+						}
+						x.closer = st
+					case *ast.SelectorExpr:
+						if a.Sel.Name != "Close" || !x.isHandle(a.X) {
+							x.refuse(o, "closer that is not the handle's Close")
+						}
+						x.closer = []string{".act (.close) []"}
+					default:
+						x.refuse(o, "closer shape")
+					}
+				}
+			}
+			if isNil(res) {
+				continue
+			}
+			// `return err` right after `if err != nil { … return … }`: err is nil here
+			if id, ok := res.(*ast.Ident); ok && len(r.Results) == 1 && id.Name == x.checked && x.checked != "" {
+				continue
+			}
+			// tail call through a receiver field: return d.loadMMapFunc(f)
+			if c, ok := res.(*ast.CallExpr); ok && len(r.Results) == 1 {
+				if f, ok := x.recvField(c.Fun); ok && len(c.Args) == 1 && x.isHandle(c.Args[0]) {
+					x.tail = f
+					continue
+				}
+			}
 			if len(r.Results) != 1 {
 				x.refuse(st, "return shape")
 			}
-			if isNil(r.Results[0]) {
-				continue
-			}
-			if op, ok := x.call(r.Results[0]); ok {
+			if op, ok := x.call(res); ok {
 				if op.kind == "open" {
 					x.refuse(st, "returns an open call")
 				}
@@ -485,9 +587,110 @@ func (x *c13x) setup(fd *ast.FuncDecl) {
 			}
 		}
 	}
-	if fd.Type.Results == nil || len(fd.Type.Results.List) != 1 || x.pkg.Src(fd.Type.Results.List[0].Type) != "error" {
-		x.refuse(fd.Type, "function does not return exactly one error")
+	for _, p := range fd.Type.Params.List {
+		if x.pkg.Src(p.Type) == "lock.LockedFile" {
+			for _, n := range p.Names {
+				x.handles[n.Name] = true
+			}
+		}
 	}
+	// receiver fields of type lock.LockedFile hold a handle (`d.pid`)
+	if x.recv != "" && fd.Recv != nil {
+		t := fd.Recv.List[0].Type
+		if st, ok := t.(*ast.StarExpr); ok {
+			t = st.X
+		}
+		if tid, ok := t.(*ast.Ident); ok {
+			for _, f := range x.pkg.Files {
+				for _, d := range f.Decls {
+					gd, ok := d.(*ast.GenDecl)
+					if !ok || gd.Tok != token.TYPE {
+						continue
+					}
+					for _, sp := range gd.Specs {
+						ts, ok := sp.(*ast.TypeSpec)
+						if !ok || ts.Name.Name != tid.Name {
+							continue
+						}
+						if stt, ok := ts.Type.(*ast.StructType); ok {
+							for _, fl := range stt.Fields.List {
+								if x.pkg.Src(fl.Type) == "lock.LockedFile" {
+									for _, n := range fl.Names {
+										x.handles[x.recv+"."+n.Name] = true
+									}
+								}
+							}
+						}
+					}
+				}
+			}
+		}
+	}
+	x.maps = map[string]bool{}
+	x.closers = map[string][]string{}
+	x.closer = nil
+	x.tail = ""
+	x.checked = ""
+	rs := fd.Type.Results
+	if rs == nil || len(rs.List) == 0 || x.pkg.Src(rs.List[len(rs.List)-1].Type) != "error" {
+		x.refuse(fd.Type, "the last result of the function is not an error")
+	}
+}
+
+// firstErrorClosure: `func() error { e1 := call; e2 := call; …; if e1 == nil { e1 = e2 }; return e1 }` —
+// every call runs whatever the others return, the first error is the result: steps `.always op`.
+func (x *c13x) firstErrorClosure(fl *ast.FuncLit) []string {
+	rs := fl.Type.Results.List
+	if len(rs) != 1 || x.pkg.Src(rs[0].Type) != "error" {
+		x.refuse(fl, "closure result is not one error")
+	}
+	var steps []string
+	var evs []string
+	list := fl.Body.List
+	i := 0
+	for ; i < len(list); i++ {
+		a, ok := list[i].(*ast.AssignStmt)
+		if !ok || len(a.Lhs) != 1 || len(a.Rhs) != 1 {
+			break
+		}
+		id, ok := a.Lhs[0].(*ast.Ident)
+		if !ok {
+			break
+		}
+		op, ok := x.call(a.Rhs[0])
+		if !ok {
+			x.refuse(list[i], "closure statement that is not a file-system call")
+		}
+		steps = append(steps, ".always ("+op.lean+")")
+		evs = append(evs, id.Name)
+	}
+	if len(evs) == 0 {
+		x.refuse(fl, "closure without calls")
+	}
+	// the merging ifs: if e1 == nil { e1 = ek }   (comments aside), in the order of the calls
+	for k := 1; k < len(evs); k++ {
+		if i >= len(list) {
+			x.refuse(fl, "closure drops the error of a call")
+		}
+		is, ok := list[i].(*ast.IfStmt)
+		want := "if " + evs[0] + " == nil { " + evs[0] + " = " + evs[k] + " }"
+		got := ""
+		if ok && is.Init == nil && is.Else == nil && len(is.Body.List) == 1 {
+			got = "if " + strings.Join(strings.Fields(x.pkg.Src(is.Cond)), " ") + " { " + strings.Join(strings.Fields(x.pkg.Src(is.Body.List[0])), " ") + " }"
+		}
+		if got != want {
+			x.refuse(list[i], "closure does not merge the errors as `"+want+"`")
+		}
+		i++
+	}
+	if i != len(list)-1 {
+		x.refuse(fl, "closure has statements the generator does not understand")
+	}
+	ret, ok := list[i].(*ast.ReturnStmt)
+	if !ok || len(ret.Results) != 1 || x.pkg.Src(ret.Results[0]) != evs[0] {
+		x.refuse(list[i], "closure does not return the first error")
+	}
+	return steps
 }
 
 func genC13(c *Ctx) {
@@ -540,12 +743,100 @@ func genC13(c *Ctx) {
 	}
 	_, persist := gen("FileSystemDirectory.Persist")
 	_, remove := gen("FileSystemDirectory.remove")
+	_, lockP := gen("FileSystemDirectory.Lock")
+	_, unlockP := gen("FileSystemDirectory.Unlock")
+	_, loadP := gen("FileSystemDirectory.Load")
+	loadTail := x.tail
+	if loadTail == "" {
+		c.Refuse("Load does not end in a call of a loader field")
+	}
+	loadDefault := ""
+	if v, ok := x.ctor[loadTail]; ok {
+		loadDefault = strings.Join(strings.Fields(pkg.Src(v)), "")
+	}
+	if loadDefault == "" {
+		c.Refuse("the loader field %s is not set by NewFileSystemDirectory", loadTail)
+	}
+	_, mmAlways := gen("LoadMMapAlways")
+	mmAlwaysCloser := x.closer
+	_, mmNever := gen("LoadMMapNever")
+	mmNeverCloser := x.closer
+	if mmAlwaysCloser == nil || mmNeverCloser == nil {
+		c.Refuse("a loader does not return a closer")
+	}
+
+	// ---- OpenWriter: what happens between a failed Lock() and the return; Writer.close: its directory calls
+	norm := func(n ast.Node) string { return strings.Join(strings.Fields(pkg.Src(n)), " ") }
+	ow := pkg.Func("OpenWriter")
+	if ow == nil || ow.Body == nil {
+		c.Refuse("OpenWriter not found")
+	}
+	var afterLockFail []string
+	lockSeen := false
+	for i, st := range ow.Body.List {
+		a, ok := st.(*ast.AssignStmt)
+		if !ok || len(a.Rhs) != 1 || !strings.HasSuffix(norm(a.Rhs[0]), ".directory.Lock()") {
+			continue
+		}
+		if lockSeen {
+			c.Refuse("OpenWriter calls Lock() twice")
+		}
+		lockSeen = true
+		ev := norm(a.Lhs[len(a.Lhs)-1])
+		if i+1 >= len(ow.Body.List) {
+			c.Refuse("OpenWriter: the result of Lock() is not examined")
+		}
+		is, ok := ow.Body.List[i+1].(*ast.IfStmt)
+		if !ok || is.Init != nil || is.Else != nil {
+			c.Refuse("OpenWriter: Lock() is not followed by `if err != nil { … }`")
+		}
+		if v, ok := errNotNil(is.Cond); !ok || v != ev {
+			c.Refuse("OpenWriter: Lock() is not followed by `if err != nil { … }`")
+		}
+		n := len(is.Body.List)
+		if n == 0 {
+			c.Refuse("OpenWriter: the Lock() failure branch does not return")
+		}
+		ret, ok := is.Body.List[n-1].(*ast.ReturnStmt)
+		if !ok || len(ret.Results) != 2 || !isNil(ret.Results[0]) || !strings.Contains(norm(ret.Results[1]), ev) {
+			c.Refuse("OpenWriter: the Lock() failure branch does not end in `return nil, <error>`")
+		}
+		for _, b := range is.Body.List[:n-1] {
+			afterLockFail = append(afterLockFail, norm(b))
+		}
+	}
+	if !lockSeen {
+		c.Refuse("OpenWriter does not call directory.Lock()")
+	}
+	// a deferred call in OpenWriter could undo the lock as well
+	ast.Inspect(ow.Body, func(n ast.Node) bool {
+		if d, ok := n.(*ast.DeferStmt); ok {
+			afterLockFail = append(afterLockFail, "defer "+norm(d.Call))
+		}
+		return true
+	})
+	wc := pkg.Func("Writer.close")
+	if wc == nil || wc.Body == nil {
+		c.Refuse("Writer.close not found")
+	}
+	var closeDirCalls []string
+	ast.Inspect(wc.Body, func(n ast.Node) bool {
+		if ce, ok := n.(*ast.CallExpr); ok {
+			if sel, ok := ce.Fun.(*ast.SelectorExpr); ok {
+				if in, ok := sel.X.(*ast.SelectorExpr); ok && in.Sel.Name == "directory" {
+					closeDirCalls = append(closeDirCalls, sel.Sel.Name)
+				}
+			}
+		}
+		return true
+	})
 
 	var b strings.Builder
 	b.WriteString("import Bluge.FS\n")
-	b.WriteString("/-! GENERATED by verif/go/extract (c13.go) from index/directory_fs.go and index/directory_fs_nix.go\n")
-	b.WriteString("of the current working tree — do not edit. The file-system steps of `FileSystemDirectory.Persist`\n")
-	b.WriteString("and `FileSystemDirectory.remove` in source order, each with the clean-up calls of its error branch. -/\n")
+	b.WriteString("/-! GENERATED by verif/go/extract (c13.go) from index/directory_fs.go, index/directory_fs_nix.go and index/writer.go\n")
+	b.WriteString("of the current working tree — do not edit. The file-system steps of `FileSystemDirectory.Persist`, `.remove`,\n")
+	b.WriteString("`.Lock`, `.Unlock`, `.Load`, of the two loaders and of the closers they return, in source order, each with the\n")
+	b.WriteString("clean-up calls of its error branch; and what `OpenWriter` does when `Lock()` fails. -/\n")
 	b.WriteString("namespace BlugeGen.C13\nopen Bluge.FS\n\n")
 	wr := func(name string, steps []string) {
 		b.WriteString("def " + name + " : Prog := [\n")
@@ -558,12 +849,34 @@ func genC13(c *Ctx) {
 		}
 		b.WriteString("]\n\n")
 	}
+	strs := func(name, doc string, xs []string) {
+		var q []string
+		for _, v := range xs {
+			q = append(q, LeanStr(v))
+		}
+		b.WriteString("/-- " + doc + " -/\ndef " + name + " : List String := [" + strings.Join(q, ", ") + "]\n\n")
+	}
 	wr("persistProgram", persist)
 	wr("removeProgram", remove)
+	wr("lockProgram", lockP)
+	wr("unlockProgram", unlockP)
+	wr("loadProgram", loadP)
+	b.WriteString("/-- `Load` ends in `return d." + loadTail + "(f)`; NewFileSystemDirectory stores this loader in the field -/\n")
+	b.WriteString("def loadTailField : String := " + LeanStr(loadTail) + "\ndef loadDefaultLoader : String := " + LeanStr(loadDefault) + "\n\n")
+	wr("loadMMapAlwaysProgram", mmAlways)
+	wr("loadMMapAlwaysCloser", mmAlwaysCloser)
+	wr("loadMMapNeverProgram", mmNever)
+	wr("loadMMapNeverCloser", mmNeverCloser)
+	strs("openWriterAfterLockFail", "OpenWriter: the statements between a failed `directory.Lock()` and `return nil, err` (and every deferred call of OpenWriter)", afterLockFail)
+	strs("writerCloseDirectoryCalls", "Writer.close: its calls on the directory, in source order", closeDirCalls)
 	b.WriteString("end BlugeGen.C13\n")
 	c.WriteLean("C13", b.String())
 	c.Summary["persist_steps"] = persist
 	c.Summary["remove_steps"] = remove
+	c.Summary["lock_steps"] = lockP
+	c.Summary["unlock_steps"] = unlockP
+	c.Summary["load_steps"] = append(append([]string{}, loadP...), "tail:"+loadTail+"="+loadDefault)
+	c.Summary["open_writer_after_lock_fail"] = afterLockFail
 	trunc := false
 	for _, s := range persist {
 		if strings.Contains(s, ".truncate") || strings.Contains(s, ".O_TRUNC") {
